@@ -20,6 +20,13 @@ def run(run):
            name='ModelSM attackers / defenses / extras slice (state space the round trips sample from)')
     maps_small = ['plain', 'yamlflow']
     maps_all = ['plain', 'colon', 'yamlbool', 'yamlfloat', 'yamlflow', 'unicode', 'null', 'tilde', 'blank', 'newline', 'quote', 'int']
+    # a file is a behaviour: its entries are add_asset(id, name) calls in file order - repeated names (renamed by the
+    # documented policy), ids in any order, id 0, negative ids; every such file of n entries, loaded and compared with ModelSM
+    nf = 3 if quick else 4
+    run.gen_replay('Gen_Model', 'Gen_Model_file.cfg', 'harness.replay_files', {'langs': langs, 'formats': ('native',)},
+                   env={'VERIF_LANG': 'LTiny', 'VERIF_DEPTH': nf, 'VERIF_NASSETS': nf, 'VERIF_BUILDFIRST': 1, 'VERIF_MAXASSETS': nf,
+                        'VERIF_NODEF': 1, 'VERIF_MAXREJ': 0}, timeout=1800,
+                   name='every hand-written file of %d asset entries (names repeat, ids in any order) in the native json / yml' % nf)
     run.gen_replay('Gen_Model', 'Gen_Model_states.cfg', A, {'langs': langs, 'namemaps': maps_small},
                    env={'VERIF_LANG': 'LTiny', 'VERIF_DEPTH': 3 if quick else 4, 'VERIF_MAXREJ': 0}, timeout=1500,
                    name='every distinct ModelSM state reachable by <= 3-4 accepted calls on LTiny, 2 name maps')
